@@ -31,7 +31,7 @@ func init() { register(c20{}) }
 func (c20) ID() string    { return "C20" }
 func (c20) Level() string { return "exploration" }
 func (c20) Rule() string {
-	return "three case families. (ranges) the MongoDB client's change cache (mongo.ChangeStore, which needs no MongoDB to run) is driven " +
+	return "five case families (lru, lru-parallel: pkg/cache.LRU and LRUWithExpires driven with the read-through / write-through / invalidate protocol against a plain map as the store - a hit must be the store's current value of a key that was added since its last Remove/Purge, Remove/Purge take effect at once, Len never exceeds what was added, Stats count every Get once; with a short expiry nothing is answered after expiry + margin; 8 goroutines writing disjoint keys that share shards, under the race detector). Further three case families. (ranges) the MongoDB client's change cache (mongo.ChangeStore, which needs no MongoDB to run) is driven " +
 		"with the exact protocol of mongo.Client - a push appends rows (operation changes go to a ground-truth table, to the store " +
 		"via ReplaceOrInsert and ExpandRange(initial+1..head); presence-only changes go to a second store only), a read is " +
 		"FindChangeInfosBetweenServerSeqs' composition of both stores with EnsureChanges over a fetcher that reads the ground truth, " +
@@ -50,7 +50,7 @@ func (c20) Rule() string {
 func (c20) Assumptions() []string {
 	return []string{"ChangeStore is exercised directly (the surrounding mongo.Client methods need a live MongoDB); the protocol around it is copied from client.go CreateChangeInfos / FindChangeInfosBetweenServerSeqs",
 		"presence-only changes are by design only cached: after an eviction of the presence store they are gone, which the model mirrors",
-		"the LRU wrappers of pkg/cache delegate to hashicorp/golang-lru; their hit/miss behaviour is observed through the two users above"}
+		"the LRU wrappers of pkg/cache (sharded LRU, expirable LRU) are driven directly by the lru families; expiry is judged one-sidedly (nothing is answered later than expiry + margin after it was added; a sleep is a lower bound on elapsed time)"}
 }
 func (c20) NumCases(tier string, _ int64) int {
 	if tier == "thorough" {
@@ -60,7 +60,8 @@ func (c20) NumCases(tier string, _ int64) int {
 }
 func (c20) Exhaustive(string) bool { return false }
 func (c20) Floors(string) []runner.Floor {
-	return []runner.Floor{{Stat: "range_reads_checked", Min: 20000}, {Stat: "fetcher_calls_checked", Min: 3000}, {Stat: "rebuilds_compared", Min: 1500}, {Stat: "parallel_reads_checked", Min: 2000}}
+	return []runner.Floor{{Stat: "range_reads_checked", Min: 20000}, {Stat: "fetcher_calls_checked", Min: 3000}, {Stat: "rebuilds_compared", Min: 1500}, {Stat: "parallel_reads_checked", Min: 2000},
+		{Stat: "lru_hits_checked", Min: 5000}, {Stat: "lru_parallel_hits_checked", Min: 5000}, {Stat: "lru_expired_reads_checked", Min: 100}}
 }
 
 type c20Worker struct{ *simWorker }
@@ -566,6 +567,10 @@ func (w *c20Worker) compactionEpilogue(ctx context.Context, res *runner.CaseResu
 func (w *c20Worker) Run(idx int) runner.CaseResult {
 	res := runner.CaseResult{Case: fmt.Sprintf("c20-%d", idx)}
 	switch {
+	case idx%10 == 1:
+		w.runLRU(&res, idx)
+	case idx%30 == 4:
+		w.runLRUParallel(&res, idx)
 	case idx%3 == 2:
 		w.runSnapshots(&res, idx, nil)
 	case idx%15 == 0:
@@ -590,6 +595,10 @@ func (w *c20Worker) Replay(data json.RawMessage) runner.CaseResult {
 		defer func() { w.seed = old }()
 		if rp.Family == "ranges-parallel" {
 			w2.runParallel(&res, rp.Idx)
+		} else if rp.Family == "lru" {
+			w2.runLRU(&res, rp.Idx)
+		} else if rp.Family == "lru-parallel" {
+			w2.runLRUParallel(&res, rp.Idx)
 		} else {
 			w2.runRanges(&res, rp.Idx)
 		}
